@@ -597,3 +597,6 @@ V("S3-init-weights-not-uniform", ["C13"], "gmm", "fill_value=1 / self.n_gaussian
 V("S3-optional-y-inverted", ["C07", "C09"], "factor_analysis", "latent_y_i = latent_y[y_i] if latent_y is not None else None", "latent_y_i = latent_y[y_i] if latent_y is None else None", "speaker factors selected only when absent", count="all")
 V("S3-optional-term-inverted", ["C07", "C09", "C11"], "factor_analysis", "fn_x_ih -= n_ic * V_dot_v if latent_y_i is not None else 0", "fn_x_ih -= n_ic * V_dot_v if latent_y_i is None else 0", "V y subtracted only when y is absent")
 V("S3-optional-neutral-one", ["C07", "C09", "C11"], "factor_analysis", "fn_x_ih -= n_ic * V_dot_v if latent_y_i is not None else 0", "fn_x_ih -= n_ic * V_dot_v if latent_y_i is not None else 1", "an absent speaker factor shifts the residual by one")
+V("S3-whitening-centre-not-stored", ["C14"], "whitening", "        self.input_subtract = mu\n", "        pass\n", "Whitening.fit never stores the training mean")
+V("S3-single-model-not-expanded", ["C08", "C11"], "linear_scoring", "        models_means = models_means[None, :, :]\n", "        pass\n", "a single (C, D) model is not expanded to one row")
+V("S3-single-model-expand-dims", ["C08"], "linear_scoring", "        models_means = models_means[None, :, :]\n", "        models_means = np.expand_dims(models_means, 0)\n", "expansion spelled with np.expand_dims", kind="benign")
